@@ -477,6 +477,31 @@ def _obj_filled(shape, v):
     return a
 
 
+def _exact_inverse(A):
+    """exact rational inverse of a constant matrix (Gauss-Jordan over Fractions), as constants"""
+    from .core import const_real
+
+    A = _np.asarray(A, dtype=object)
+    k = A.shape[0]
+    M = [[Fraction(float(A[i, j])) for j in range(k)] + [Fraction(int(i == j)) for j in range(k)] for i in range(k)]
+    for c in range(k):
+        piv = next((r for r in range(c, k) if M[r][c] != 0), None)
+        if piv is None:
+            raise _np.linalg.LinAlgError("Singular matrix")
+        M[c], M[piv] = M[piv], M[c]
+        pv = M[c][c]
+        M[c] = [v / pv for v in M[c]]
+        for r in range(k):
+            if r != c and M[r][c] != 0:
+                f = M[r][c]
+                M[r] = [a - f * b for a, b in zip(M[r], M[c])]
+    out = _np.empty((k, k), dtype=object)
+    for i in range(k):
+        for j in range(k):
+            out[i, j] = const_real(M[i][k + j])
+    return out
+
+
 class _Linalg:
     def __getattr__(self, name):
         return getattr(_np.linalg, name)
@@ -520,6 +545,8 @@ class _Linalg:
     def inv(self, A):
         if not has_sym(A):
             return _np.linalg.inv(A)
+        if not really_sym(A) and ENGINE.active and not ENGINE.const_mode:
+            return _exact_inverse(A)
         hook = getattr(ENGINE, "inv_hook", None)
         if hook is None:
             raise Unsupported("np.linalg.inv on symbolic matrix without stub")
@@ -587,6 +614,9 @@ class NumpyProxy:
     def zeros(self, shape, dtype=float, **k):
         if self._symalloc(dtype):
             return _obj_filled(shape, 0.0)
+        if ENGINE.active and _norm_dtype(dtype) == "b":
+            # a boolean work array may receive symbolic truth values (masks): carrier array of False
+            return _obj_filled(shape, False)
         return _np.zeros(shape, dtype=dtype, **k)
 
     def ones(self, shape, dtype=float, **k):
